@@ -852,6 +852,10 @@ pub enum Op {
         source_module: ConstantIndex,
         source_key: ConstantIndex,
     },
+
+    /// Re-export every named export (all but `default`) of another module.
+    /// Used for `export * from "./bar"`; names the module exports itself take precedence.
+    ReExportAll { source_module: ConstantIndex },
 }
 
 /// A compiled chunk of bytecode
